@@ -180,6 +180,38 @@ def check(prog, run):
                 else:
                     run.violation("marshalling-repeatable", case["name"], "two marshalling calls with equal inputs give different bytes",
                                   prog.rel(cls.module), None, case["cls"])
+    # no marshalling result may depend on the iteration order of a set (for strings that order changes from one process to
+    # the next): every shape -- and standard INQUIRY data with identification strings shorter than their fields, where the
+    # writes do not commute -- is marshalled under both orders of every set iteration
+    from ..images import same_value as _same, sym_blob as _blob
+
+    def short_inquiry():
+        d = [c for c in refrt.CASES if c["name"] == "standard INQUIRY"][0]["build"]()
+        d.update(t10_vendor_identification=_blob("vid", 4), product_identification=_blob("pid", 9), product_revision_level=_blob("rev", 2))
+        return d
+    std = [c for c in refrt.CASES if c["name"] == "standard INQUIRY"]
+    extra = [dict(std[0], name="standard INQUIRY with short identification strings", build=short_inquiry)] if std else []
+    for case in list(refrt.CASES) + extra:
+        cls = prog.cls(*case["cls"].split(":"))
+        outs = []
+        sets_seen = 0
+        for rev in (False, True):
+            I.set_order_reversed = rev
+            try:
+                ps = I.explore(lambda case=case, cls=cls: I.call(I.get_attr(cls, case["marshall"], None, _F()), [case["build"]()], {}, None, _F()),
+                               max_paths=64)
+            finally:
+                I.set_order_reversed = False
+            outs.append([p.value if p.returned else ("raises", p.raised.describe()) for p in ps])
+            sets_seen += sum(1 for p in ps for e in p.events if e["kind"] == "set-iteration")
+        okd = len(outs[0]) == len(outs[1]) and all((_same(a, b) if not isinstance(a, tuple) else a == b) for a, b in zip(outs[0], outs[1]))
+        if okd:
+            run.ok("marshalling-deterministic", "%s (set iteration order)" % case["name"], {"set_iterations": sets_seen}, nontrivial=sets_seen > 0)
+        else:
+            run.violation("marshalling-deterministic", "%s (set iteration order)" % case["name"],
+                          "the bytes %s.%s produces depend on the order in which a set is iterated (%d set iterations on the way): for a set "
+                          "of strings that order changes with every interpreter start, so equal inputs give different bytes in different runs"
+                          % (cls.name, case["marshall"], sets_seen), prog.rel(cls.module), None, case["cls"])
     enum_spc = prog.module(ENUM_MOD).env["spc"]
     for group, opname in ((refpl.PR_CASES, "PERSISTENT_RESERVE_OUT"), (refpl.MODE_CASES, None), (refpl.XCOPY_CASES, "EXTENDED_COPY")):
         for case in group:
